@@ -42,7 +42,13 @@ RULE = ("Random: Hypothesis specs of annotated records (vlib/c10_records.record_
         "multi-CDS modules, 0-5 protoclusters (gene-anchored or sideloaded, equal coordinates, nested, across the "
         "origin, T2PKS qualifier, extra qualifiers), 0-3 subregions, candidates through create_candidate_clusters, "
         "regions through create_regions. Non-trivial: an origin-spanning feature or area, two areas of one kind with "
-        "equal coordinates, a reverse-strand prepeptide, or a multi-CDS module. distinct = sha1 of the spec.")
+        "equal coordinates, a reverse-strand prepeptide, a multi-CDS module, an e-value/score of exactly 0, or a "
+        "cross-reference list whose numbers cross from one to two digits. One record in five is of the 'many areas' "
+        "family: 10-14 small genes in a row with a protocluster each (some genes two: hybrids), a drawn share of adjacent "
+        "neighbourhoods overlapping (candidates over consecutive numbers such as 9|10), optionally 10-13 subregions, so "
+        "that protocluster/candidate/subregion/region numbers reach two digits. E-values and scores of domains, sec_met "
+        "and NRPS_PKS entries come from a mixture with 0.0, denormals, 1.0, >1, negative and whole-number scores, and "
+        "'no value'. distinct = sha1 of the spec.")
 ASSUMPTIONS = [
     "Biopython's GenBank writer/parser is the trusted base: qualifier values are short words, so line wrapping "
     "(Biopython's business) cannot alter them; headers are complete so Biopython's defaults do not differ between writes",
@@ -762,6 +768,6 @@ def run(ctx) -> None:
     shards = 16
     ctx.extra["generated_spec_profile"] = _generator_profile(ctx.pick(80, 1500), ctx.seed)
     ctx.extra["bounds"] = {"record_length": [300, 5000], "genes": [1, 8], "protoclusters": [0, 5], "subregions": [0, 3]}
-    ctx.hyp("genbank", genbank_specs(), max_examples=ctx.pick(700, 30000), shards=shards)
-    ctx.hyp("json", rec.record_specs(), max_examples=ctx.pick(500, 20000), shards=shards)
-    ctx.hyp("results", results_specs(), max_examples=ctx.pick(300, 10000), shards=shards)
+    ctx.hyp("genbank", genbank_specs(), max_examples=ctx.pick(700, 26000), shards=shards)
+    ctx.hyp("json", rec.record_specs(), max_examples=ctx.pick(500, 17000), shards=shards)
+    ctx.hyp("results", results_specs(), max_examples=ctx.pick(300, 9000), shards=shards)
